@@ -391,9 +391,12 @@ def rule_value_to_int(ctx) -> None:
     read = {c.args[0].value for c in A.calls_in(fn.node, "group") if c.args and isinstance(c.args[0], ast.Constant)}
     ctx.chk.decide(read <= groups, "C20.value_to_int.groups", fn.qual, f"groups read {sorted(read)} exist in the pattern", f"groups read {sorted(read)} vs pattern groups {sorted(groups)}", "", A.loc(MISC, call))
     # failures reach SPSDKError unless a default is given: last statement raises SPSDKError; int path returns value for ints
-    last = A.body_of(fn.node)[-1]
-    ctx.chk.decide(isinstance(last, ast.Raise) and "SPSDKError" in norm(last), "C20.value_to_int.reject", fn.qual, "falls through to raise SPSDKError",
-                   f"last statement is {norm(last)[:80]}", "raise SPSDKError(...)", A.loc(MISC, last))
+    gp = A.gpaths(fn.node)
+    bad = [repr(q) for q in gp if q.end == "fall" or (q.end == "raise" and "SPSDKError" not in norm(q.last))
+           or (q.end == "return" and norm(q.last) == "return default" and not q.assumes("default is None", False))]
+    rej = [q for q in gp if q.end == "raise" and q.assumes("default is None", True)]
+    ctx.chk.decide(not bad and bool(rej), "C20.value_to_int.reject", fn.qual, "every path returns a conversion, returns a non-None default, or raises SPSDKError",
+                   f"{bad[:2]}; rejecting paths {len(rej)}", "raise SPSDKError(...) when nothing converts and no default is given", A.loc(MISC, fn.node))
     # bytes path: big endian, agrees with value_to_bytes default
     fb = [c for c in A.calls_in(fn.node, "from_bytes")]
     vb = ctx.func(MISC, "value_to_bytes")
